@@ -1049,7 +1049,43 @@ static int reuse_drive(int start, int nexec)
 		for (int r = 0; r < rounds; r++)
 		{
 			/* make the parser dirty: a partial / failing / successful parse, no reset afterwards */
-			if (vh_below(2))
+			int huge = vh_below(12) == 0;
+			if (huge)
+			{
+				/* ... among them one whose token (string, comment, number) is larger than 64 KiB, complete or cut off:
+				 * whatever the parser's scratch buffer went through, the parser must afterwards be as good as new */
+				static unsigned char big[72000];
+				int n = 65000 + (int)vh_below(6000), k = (int)vh_below(3), m = 0;
+				big[m++] = '[';
+				if (k == 0)
+					big[m++] = '"';
+				else if (k == 1)
+				{
+					big[m++] = '/';
+					big[m++] = '*';
+				}
+				for (int i = 0; i < n; i++)
+					big[m++] = (unsigned char)(k == 2 ? '0' + (i % 9) + 1 : "abcdefghij klmnop"[i % 17]);
+				if (vh_below(2))
+				{
+					if (k == 0)
+						big[m++] = '"';
+					else if (k == 1)
+					{
+						big[m++] = '*';
+						big[m++] = '/';
+						big[m++] = '1';
+					}
+					big[m++] = ']';
+				}
+				int half = (int)vh_below(2) ? m / 2 : m;
+				json_object *o = call_exact(tok, big, (size_t)half);
+				if (!o && half < m && json_tokener_get_error(tok) == json_tokener_continue)
+					o = call_exact(tok, big + half, (size_t)(m - half));
+				if (o)
+					json_object_put(o);
+			}
+			else if (vh_below(2))
 			{
 				const char *d = dirty[vh_below(sizeof dirty / sizeof *dirty)];
 				int dl = (int)strlen(d);
@@ -1066,7 +1102,10 @@ static int reuse_drive(int start, int nexec)
 				if (o)
 					json_object_put(o);
 			}
-			any_text();
+			if (huge || vh_below(10) == 0)
+				gen_long_token(0);
+			else
+				any_text();
 			reuse_round(tok, fl, depth, 0);
 		}
 		json_tokener_free(tok);
@@ -1290,6 +1329,38 @@ static void nest_doc(int levels, int mix, int leaf)
 		putc_(kinds[i] == '[' ? ']' : '}');
 	}
 }
+#include "json_util.h"
+#include <unistd.h>
+/* the text in T parsed by json_object_from_fd_ex(fd, D) from a temporary file */
+static void depth_via_fd(int D)
+{
+	char tmpl[] = "/tmp/vh_depth_XXXXXX";
+	int fd = mkstemp(tmpl);
+	if (fd < 0)
+		return;
+	unlink(tmpl);
+	if (write(fd, T, (size_t)TL) != (ssize_t)TL)
+	{
+		close(fd);
+		return;
+	}
+	lseek(fd, 0, SEEK_SET);
+	json_object *o = json_object_from_fd_ex(fd, D);
+	close(fd);
+	const char *msg = o ? "" : json_util_get_last_err();
+	ev_begin("depthfd");
+	ev_bytes("text", T, (size_t)TL);
+	ev_int("D", D < -1000 ? -1000 : D);
+	ev_bool("has", o != NULL);
+	ev_bool("too_deep", msg && strstr(msg, "nesting too deep") != NULL);
+	if (o)
+		dump_value("val", o);
+	else
+		dump_none("val");
+	ev_end();
+	if (o)
+		json_object_put(o);
+}
 static int depth_drive(int start, int nexec)
 {
 	allow_nul_names = 0;
@@ -1310,6 +1381,9 @@ static int depth_drive(int start, int nexec)
 			nest_doc(levels, (int)vh_below(3), (int)vh_below(4));
 			int cuts[4], nc = vh_below(2) ? rand_cuts(TL + 1, cuts, 3) : 0;
 			record_parse("depth", (int)vh_below(2), D, cuts, nc);
+			/* the same limit configured through the other entry point that takes one: the file / descriptor reader */
+			if (delta >= -1 && delta <= 1)
+				depth_via_fd(vh_below(6) ? D : (int[]){0, -2, -33, INT_MIN + 1}[vh_below(4)]);
 		}
 		/* a generated document against a small limit */
 		gen_doc(6, 30);
@@ -1506,7 +1580,9 @@ static int inject_drive(int start, int nexec)
 			case TK_INT:
 			{
 				int d0 = st + (O[st] == '-');
-				const char *z = vh_below(2) ? "0" : "00";
+				/* one, two, or so many that the token outgrows every fixed-width assumption about integer texts */
+				static const char *zs[] = {"0", "00", "0", "00", "000000000000000000000", "0000000000000000000000000000000000000000"};
+				const char *z = zs[vh_below(6)];
 				splice(d0, 0, z, (int)strlen(z));
 				three_runs("leading_zero", d0);
 				break;
